@@ -132,4 +132,543 @@ Proof.
   apply (unsolicited_events_service_safe D m WF sio smu shs s_write s_lock s_unlock h_san h_san_ok). exact HS.
 Qed.
 
+
+(* ------------------------------------------------------------------ *)
+(* one callback: either the script is exhausted (terminal default, the  *)
+(* state is untouched) or one entry is consumed                         *)
+(* ------------------------------------------------------------------ *)
+
+Local Notation apply_icall := (Fsm.apply_icall D sio smu shs s_lock s_unlock).
+
+Lemma apply_icall_frame : forall w c, io (apply_icall w c) = io w /\ hs (apply_icall w c) = hs w.
+Proof.
+  intros w c. destruct c as [ci t|z];
+    unfold Fsm.apply_icall, Fsm.api_trigger, Fsm.api_hold_exit, Fsm.bracket;
+    repeat (wcbn; dm); wcbn; split; reflexivity.
+Qed.
+
+Lemma fold_icall_frame : forall l w,
+  io (fold_left apply_icall l w) = io w /\ hs (fold_left apply_icall l w) = hs w.
+Proof.
+  induction l as [|c l IH]; intros w; [split; reflexivity|]. cbn [fold_left].
+  destruct (IH (apply_icall w c)) as [A B]. destruct (apply_icall_frame w c) as [A' B']. split; congruence.
+Qed.
+
+Lemma call_h_cases : forall w q, SOK (hs w) ->
+  let w1 := fst (call_h w q) in let r := snd (call_h w q) in
+  SOK (hs w1) /\ io w1 = io w /\ hrel D m (st w) (st w1) /\ (r_code r =? RC_HOLD)%Z = false /\
+  ((st w1 = st w /\ hs w1 = hs w /\ r = default_res q) \/ script_left (hs w1) < script_left (hs w)).
+Proof.
+  intros w q H. cbv zeta. unfold Fsm.call_h.
+  destruct (SOK_call _ q H) as (A & B & C). pose proof (s_call_cases (hs w) q) as Cs.
+  destruct (s_call (hs w) q) as [h' r]. cbn [fst snd] in *.
+  match goal with |- context [fold_left _ _ ?x] => set (w2 := x) end.
+  destruct (fold_icall_frame (r_calls r) w2) as [F1 F2].
+  split; [rewrite F2; exact A|]. split; [rewrite F1; reflexivity|].
+  split.
+  { apply (fold_icall_hrel D m WF); [apply res_calls_ok_Forall; exact C|].
+    subst w2. wcbn. apply (fold_poke_hrel D m). apply hrel_refl. }
+  split; [unfold no_hold_res in B; apply negb_true_iff in B; exact B|].
+  destruct Cs as [[E1 E2] | E].
+  - left. subst h' r. destruct q; cbn [default_res r_calls r_pokes fold_left] in *; subst w2; wcbn; auto.
+  - right. rewrite F2. subst w2. wcbn. lia.
+Qed.
+
+
+(* ------------------------------------------------------------------ *)
+(* invariant and measure of a scripted world                            *)
+(* ------------------------------------------------------------------ *)
+
+Definition Inv' (w : sworld) : Prop :=
+  NH (st w) /\ rd_sched (io w) = [] /\ wr_sched (io w) = [] /\ SOK (hs w).
+Definition Inv (w : sworld) : Prop := Safe (st w) /\ Inv' w.
+
+Definition M (w : sworld) : list nat :=
+  script_left (hs w) :: (length (inq (io w)) + u_count (u (st w))) :: (cU (st w) ++ cC (st w)).
+
+Lemma M_len : forall w, length (M w) = 9.
+Proof. intros w. unfold M. cbn [length]. rewrite app_length, cU_len, cC_len. reflexivity. Qed.
+
+Lemma cU_ext : forall s s', u s' = u s -> cU s' = cU s.
+Proof. intros s s' E. unfold Lemmas_C15ba.cU, ufl, upre. rewrite E. reflexivity. Qed.
+
+Lemma hrel_NH : forall s s', hrel D m s s' -> NH s -> NH s'.
+Proof.
+  intros s s' (_ & _ & K & _) [A B]. assert (E := f_equal fst K). unfold kv in E. cbn [fst] in E.
+  assert (E1 : k_hold (k s') = k_hold (k s)) by exact (f_equal k_hold E).
+  assert (E2 : k_state (k s') = k_state (k s)) by exact (f_equal k_state E).
+  split; congruence.
+Qed.
+
+(* outcome of one step of the command machine / of the event machine *)
+Definition StepC (w w2 : sworld) (rc : Z) : Prop :=
+  Inv' w2 /\
+  (lexlt (M w2) (M w) \/
+   (M w2 = M w /\ st w2 = st w /\ k_state (k (st w)) <> CS_FLUSH /\
+    (rc = ST_OK \/ (k_state (k (st w)) = CS_FLUSH_WAIT /\ u_state (u (st w)) = US_FLUSH)))).
+
+Definition StepU (w w1 : sworld) (us : Z) : Prop :=
+  Inv' w1 /\
+  (lexlt (M w1) (M w) \/
+   (M w1 = M w /\ st w1 = st w /\
+    ((us = ST_OK /\ u_state (u (st w)) = US_IDLE) \/ k_state (k (st w)) = CS_FLUSH))).
+
+(* the io of w1 is that of w up to the (empty) schedules *)
+Definition io_same (w w1 : sworld) : Prop :=
+  inq (io w1) = inq (io w) /\ rd_sched (io w1) = [] /\ wr_sched (io w1) = [].
+
+Lemma io_same_refl : forall w, Inv w -> io_same w w.
+Proof. intros w (_ & _ & R1 & R2 & _). repeat split; assumption. Qed.
+Lemma io_same_eq : forall w w1, Inv w -> io w1 = io w -> io_same w w1.
+Proof. intros w w1 (_ & _ & R1 & R2 & _) E. unfold io_same. rewrite E. auto. Qed.
+
+Lemma stepC_pure : forall w w1 s' rc, Inv w -> hs w1 = hs w -> io_same w w1 ->
+  PC (st w) s' -> StepC w (set_st s' w1) rc.
+Proof.
+  intros w w1 s' rc (HS & Hnh & R1 & R2 & HK) E2 (I1 & I2 & I3) (A & B & C). split.
+  - unfold Inv'. wcbn. rewrite E2. auto.
+  - left. unfold M. wcbn. rewrite E2, I1, A, (cU_ext _ _ A). cbn [lexlt].
+    right. split; [reflexivity|]. right. split; [reflexivity|]. apply lexlt_app_eq. exact C.
+Qed.
+
+Lemma stepU_pure : forall w w1 s' us, Inv w -> hs w1 = hs w -> io_same w w1 ->
+  PU (st w) s' -> StepU w (set_st s' w1) us.
+Proof.
+  intros w w1 s' us (HS & Hnh & R1 & R2 & HK) E2 (I1 & I2 & I3) (_ & B & C). split.
+  - unfold Inv'. wcbn. rewrite E2. auto.
+  - left. unfold M. wcbn. rewrite E2, I1. unfold Lemmas_C15ba.mU in C. cbn [lexlt] in *.
+    right. split; [reflexivity|]. destruct C as [C | [C1 C2]]; [left; lia|].
+    right. split; [lia|]. apply lexlt_app_lt; [rewrite !cU_len; reflexivity | exact C2].
+Qed.
+
+Definition StepG (f : fsm) (w w2 : sworld) (rc : Z) : Prop :=
+  match f with ATCMD => StepC w w2 rc | UNSOL => StepU w w2 rc end.
+
+Lemma stepG_pure : forall f w w1 s' rc, Inv w -> hs w1 = hs w -> io_same w w1 ->
+  PG f (st w) s' -> StepG f w (set_st s' w1) rc.
+Proof. intros [|] w w1 s' rc; [apply stepC_pure | apply stepU_pure]. Qed.
+
+Lemma stepG_consumed : forall f w w2 rc, Inv' w2 -> script_left (hs w2) < script_left (hs w) ->
+  StepG f w w2 rc.
+Proof.
+  intros f w w2 rc HI H. assert (L : lexlt (M w2) (M w)) by (unfold M; cbn [lexlt]; left; exact H).
+  destruct f; (split; [exact HI | left; exact L]).
+Qed.
+
+(* elimination principle for one callback *)
+Lemma call_split : forall w q (P : sworld * hres -> Prop), SOK (hs w) ->
+  (forall w1, st w1 = st w -> hs w1 = hs w -> io w1 = io w -> P (w1, default_res q)) ->
+  (forall w1 r, SOK (hs w1) -> io w1 = io w -> hrel D m (st w) (st w1) ->
+     (r_code r =? RC_HOLD)%Z = false -> script_left (hs w1) < script_left (hs w) -> P (w1, r)) ->
+  P (call_h w q).
+Proof.
+  intros w q P H Hd Hc. pose proof (call_h_cases w q H) as X. cbv zeta in X.
+  destruct (call_h w q) as [w1 r]. cbn [fst snd] in X.
+  destruct X as (A & B & C & E & [(E1 & E2 & E3) | L]).
+  - subst r. apply Hd; assumption.
+  - apply Hc; assumption.
+Qed.
+
+
+(* ------------------------------------------------------------------ *)
+(* the states that call a handler                                       *)
+(* ------------------------------------------------------------------ *)
+
+Local Notation process_rt_loop := (Fsm.process_rt_loop D sio smu shs s_lock s_unlock s_call).
+Local Notation format_read_args := (Fsm.format_read_args D sio smu shs s_lock s_unlock s_call).
+Local Notation process_write_loop := (Fsm.process_write_loop D sio smu shs s_lock s_unlock s_call).
+Local Notation process_run_loop := (Fsm.process_run_loop D sio smu shs s_lock s_unlock s_call).
+Local Notation parse_write_args := (Fsm.parse_write_args D sio smu shs s_lock s_unlock s_call).
+
+Ltac wred := unfold Fsm.busy, Fsm.upd_st; cbn [fst snd].
+
+Ltac split_call :=
+  match goal with |- context [call_h ?w ?q] => pattern (call_h w q); apply call_split end.
+
+Lemma inv'_after : forall w w1 s', Inv w -> SOK (hs w1) -> io w1 = io w -> NH s' -> Inv' (set_st s' w1).
+Proof.
+  intros w w1 s' (_ & _ & R1 & R2 & _) H E Hn. unfold Inv'. wcbn. rewrite E. auto.
+Qed.
+
+(* cat.c:2220, 2295 *)
+Lemma rt_loop_step : forall rd f w, Inv w -> loop_state f (st w) ->
+  StepG f w (fst (process_rt_loop rd f w)) (snd (process_rt_loop rd f w)).
+Proof.
+  intros rd f w HI Hst. pose proof HI as (HS & Hnh & R1 & R2 & HK).
+  unfold Fsm.process_rt_loop. destruct (loop_state_inv D m f _ HS Hst) as [Hc _].
+  destruct (g_cmd f (st w)) as [ci|] eqn:Ec; [|destruct Hc]. cbv zeta.
+  split_call; [exact HK | |].
+  - intros w1 E1 E2 E3. wred. rewrite E1.
+    assert (X : PG f (st w) (rt_tail D rd f (mkHres RC_OK None [] []) (st w)))
+      by (apply rt_tail_default_PG; assumption).
+    destruct rd; (apply stepG_pure; [exact HI | exact E2 | apply io_same_eq; assumption | exact X]).
+  - intros w1 r H1 E3 R Hc1 L. wred. apply stepG_consumed; [|wcbn; exact L].
+    apply (inv'_after w); [exact HI | exact H1 | exact E3 |].
+    pose proof (hrel_NH _ _ R Hnh) as Hn1. pose proof (hrel_loop D m f _ _ R Hst) as Hst1.
+    destruct R as (R1' & _). specialize (R1' HS).
+    destruct (apply_edit_loop D m f (r_edit r) (st w1) R1' Hst1) as (_ & C2 & _).
+    exact (rt_tail_NH D rd f r (st w1) Hn1 Hc1 C2).
+Qed.
+
+
+Lemma NH_end_with_error : forall f s, NH s -> NH (end_with_error f s).
+Proof. intros f s [A B]. destruct f; unfold end_with_error, ack_error, start_flush_c, unsolicited_reset_state, Lemmas_C15ba.NH; sproj; split; auto; discriminate. Qed.
+
+Lemma PG_NH : forall f s s', PG f s s' -> NH s'.
+Proof. intros [|] s s' H; [apply H | apply H]. Qed.
+
+(* cat.c:1783 *)
+Lemma format_read_args_step : forall f w, Inv w -> fmt_state f (st w) true ->
+  StepG f w (fst (format_read_args f w)) (snd (format_read_args f w)).
+Proof.
+  intros f w HI Hst. pose proof HI as (HS & Hnh & R1 & R2 & HK).
+  unfold Fsm.format_read_args.
+  destruct (fmt_state_inv D m f _ true HS Hst) as (Hv & _).
+  destruct (var_ok_at D _ _ Hv) as (ci & c & v & E1 & E2 & E3).
+  unfold cmd_of, cmd_at. rewrite E1, E2, E3.
+  assert (Body : forall s1, Safe s1 -> NH s1 -> fmt_state f s1 true -> g_cmd f s1 = g_cmd f (st w) ->
+            g_var f s1 = g_var f (st w) -> PG f s1 (fra_body D f c v s1)).
+  { intros s1 S1 N1 F1 G1 G2. apply (fra_body_PG D m WF f s1 ci c v); try assumption; congruence. }
+  destruct (v_hread v).
+  - split_call; [exact HK | |].
+    + intros w1 E1' E2' E3'. cbn [default_res r_code Z.eqb negb]. wred. rewrite E1'.
+      apply stepG_pure; [exact HI | exact E2' | apply io_same_eq; assumption |].
+      apply Body; auto.
+    + intros w1 r H1 E3' R Hc1 L.
+      destruct (hrel_fmt D m f _ _ true R Hst) as (Hst1 & Ec1 & Ev1).
+      pose proof (hrel_NH _ _ R Hnh) as Hn1. destruct R as (R1' & _). specialize (R1' HS).
+      destruct (negb (r_code r =? 0)%Z); wred; (apply stepG_consumed; [|wcbn; exact L]);
+        (apply (inv'_after w); [exact HI | exact H1 | exact E3' |]).
+      * apply NH_end_with_error; exact Hn1.
+      * eapply PG_NH. apply Body; assumption.
+  - wred. apply stepG_pure; [exact HI | reflexivity | apply io_same_refl; exact HI |]. apply Body; auto.
+Qed.
+
+(* cat.c:2146 *)
+Lemma write_loop_step : forall w, Inv w -> k_state (k (st w)) = CS_WRITE_LOOP ->
+  StepC w (fst (process_write_loop w)) (snd (process_write_loop w)).
+Proof.
+  intros w HI Hst. pose proof HI as (HS & Hnh & R1 & R2 & HK).
+  unfold Fsm.process_write_loop.
+  assert (Hc : cmd_ok D (k_cmd (k (st w)))).
+  { destruct HS as (_ & HKS & _). unfold KS in HKS. rewrite Hst in HKS. exact HKS. }
+  sproj. destruct (k_cmd (k (st w))) as [ci|] eqn:Ec; [|destruct Hc]. cbv zeta.
+  split_call; [exact HK | |].
+  - intros w1 E1 E2 E3. wred. rewrite E1.
+    apply stepC_pure; [exact HI | exact E2 | apply io_same_eq; assumption |].
+    exact (write_tail_default_PC D (st w) Hnh Hst).
+  - intros w1 r H1 E3 R Hc1 L. wred. apply (stepG_consumed ATCMD); [|wcbn; exact L].
+    apply (inv'_after w); [exact HI | exact H1 | exact E3 |].
+    exact (write_tail_NH (r_code r) (st w1) (hrel_NH _ _ R Hnh) Hc1).
+Qed.
+
+(* cat.c:2173 *)
+Lemma run_loop_step : forall w, Inv w -> k_state (k (st w)) = CS_RUN_LOOP ->
+  StepC w (fst (process_run_loop w)) (snd (process_run_loop w)).
+Proof.
+  intros w HI Hst. pose proof HI as (HS & Hnh & R1 & R2 & HK).
+  unfold Fsm.process_run_loop.
+  assert (Hc : cmd_ok D (k_cmd (k (st w)))).
+  { destruct HS as (_ & HKS & _). unfold KS in HKS. rewrite Hst in HKS. exact HKS. }
+  sproj. destruct (k_cmd (k (st w))) as [ci|] eqn:Ec; [|destruct Hc]. cbv zeta.
+  split_call; [exact HK | |].
+  - intros w1 E1 E2 E3. wred. rewrite E1.
+    apply stepC_pure; [exact HI | exact E2 | apply io_same_eq; assumption |].
+    exact (run_tail_default_PC D (st w) Hnh Hst).
+  - intros w1 r H1 E3 R Hc1 L. wred. apply (stepG_consumed ATCMD); [|wcbn; exact L].
+    apply (inv'_after w); [exact HI | exact H1 | exact E3 |].
+    exact (run_tail_NH D (r_code r) (st w1) (hrel_NH _ _ R Hnh) Hc1).
+Qed.
+
+
+(* cat.c:1365 *)
+Lemma parse_write_args_step : forall w, Inv w -> k_state (k (st w)) = CS_PARSE_WRITE_ARGS ->
+  StepC w (fst (parse_write_args w)) (snd (parse_write_args w)).
+Proof.
+  intros w HI Hst. pose proof HI as (HS & Hnh & R1 & R2 & HK).
+  assert (HF : fault (st (fst (parse_write_args w))) = false).
+  { pose proof (s_cmd_safe w HK HS) as X. unfold Fsm.cmd_service in X. rewrite Hst in X.
+    apply safe_fault in X. exact X. }
+  revert HF. unfold Fsm.parse_write_args.
+  assert (HKS : var_ok D (k_cmd (k (st w))) (k_var (k (st w)))).
+  { destruct HS as (_ & HKS & _). unfold KS in HKS. rewrite Hst in HKS. apply HKS. }
+  destruct (var_ok_at D _ _ HKS) as (ci & c & v & E1 & E2 & E3).
+  unfold cmd_of, cmd_at. sproj. rewrite E1, E2, E3.
+  destruct (nth_error (mem (st w)) (v_slot v)) as [data|]; [|intros HF; discriminate HF].
+  destruct (decode_var v _ data) as [[[pst data'] wsz] n].
+  set (s1 := set_mem (upd (mem (st w)) (v_slot v) data')
+                     (setk_position (k_position (k (st w)) + n) (st w))).
+  assert (Hn1 : NH s1) by (destruct Hnh as [A B]; split; assumption).
+  assert (Hc1 : cC s1 = cC (st w)) by (unfold Lemmas_C15ba.cC; subst s1; sproj; rewrite Hst; reflexivity).
+  destruct pst as [| |comma]; [intros HF; discriminate HF | |]; intros _.
+  - wred. apply stepC_pure; [exact HI | reflexivity | apply io_same_refl; exact HI |].
+    apply (PC_base D (st w) s1); [|reflexivity | exact Hc1].
+    apply ack_error_PC; [exact Hn1|]. unfold Lemmas_C15ba.cC. subst s1. sproj. rewrite Hst. cbn. lia.
+  - set (s2 := setk_write_size wsz s1).
+    assert (Hn2 : NH s2) by (destruct Hnh as [A B]; split; assumption).
+    assert (Hc2 : cC s2 = cC (st w)) by (unfold Lemmas_C15ba.cC; subst s2 s1; sproj; rewrite Hst; reflexivity).
+    assert (Tail : forall s3, NH s3 -> k_state (k s3) = CS_PARSE_WRITE_ARGS -> k_cmd (k s3) = Some ci ->
+              PC s3 (pwa_tail c comma s3)).
+    { intros s3 N3 K3 C3. apply (pwa_tail_PC D s3 ci c comma); assumption. }
+    assert (T2 : PC (st w) (pwa_tail c comma s2)).
+    { apply (PC_base D (st w) s2); [|reflexivity | exact Hc2]. apply Tail; [exact Hn2 | exact Hst | exact E1]. }
+    destruct (v_hwrite v).
+    + split_call; [exact HK | |].
+      * intros w1 E1' E2' E3'. cbn [default_res r_code Z.eqb negb]. wred. rewrite E1'. cbn [Fsm.st Fsm.set_st].
+        apply stepC_pure; [exact HI | exact E2' | apply io_same_eq; [exact HI | exact E3'] | exact T2].
+      * intros w1 r H1 E3' R Hcd L. cbn [Fsm.st Fsm.set_st Fsm.hs Fsm.io] in *.
+        pose proof (hrel_NH _ _ R Hn2) as Hn3. destruct R as (_ & _ & K & _).
+        destruct (kv_proj _ _ K) as (K1 & K2 & _).
+        destruct (negb (r_code r =? 0)%Z); wred; (apply (stepG_consumed ATCMD); [|wcbn; exact L]);
+          (apply (inv'_after w); [exact HI | exact H1 | exact E3' |]).
+        -- apply (NH_end_with_error ATCMD); exact Hn3.
+        -- eapply (PG_NH ATCMD). apply Tail; [exact Hn3 | rewrite K1; exact Hst | rewrite K2; exact E1].
+    + wred. cbn [Fsm.st Fsm.set_st].
+      apply stepC_pure; [exact HI | reflexivity | apply io_same_eq; [exact HI | reflexivity] | exact T2].
+Qed.
+
+
+(* ------------------------------------------------------------------ *)
+(* the io states on the always-ready environment                        *)
+(* ------------------------------------------------------------------ *)
+
+Local Notation reading := (Fsm.reading sio smu shs s_read).
+Local Notation process_io_write := (Fsm.process_io_write sio smu shs s_write).
+Local Notation unsolicited_process_io_write := (Fsm.unsolicited_process_io_write sio smu shs s_write).
+
+(* a reading state: one byte of the pending input is consumed, or the queue is empty and the
+   command machine answers OK without changing anything *)
+Lemma reading_step : forall w body, Inv w -> k_state (k (st w)) <> CS_FLUSH ->
+  (forall ch s, NH s -> k_state (k s) = k_state (k (st w)) -> k_cmd (k s) = k_cmd (k (st w)) ->
+     RB s (body ch s)) ->
+  StepC w (fst (reading w body)) (snd (reading w body)).
+Proof.
+  intros w body HI Hnf Hb. pose proof HI as (HS & Hnh & R1 & R2 & HK).
+  unfold Fsm.reading, Fsm.read_cmd_char, s_read. rewrite R1. cbn [pop_bit].
+  destruct (inq (io w)) as [|c q] eqn:Ei.
+  - cbn [negb fst snd]. split.
+    + unfold Inv'. wcbn. auto.
+    + right. split; [unfold M; wcbn; rewrite Ei; reflexivity|]. split; [reflexivity|].
+      split; [exact Hnf | left; reflexivity].
+  - cbn [negb]. wred. wcbn.
+    match goal with |- context [body _ ?s2] => set (s2' := s2) end.
+    assert (Hn2 : NH s2') by (subst s2'; destruct Hnh as [A B]; destruct (_ && _); split; assumption).
+    assert (Hk2 : k_state (k s2') = k_state (k (st w))) by (subst s2'; destruct (_ && _); reflexivity).
+    assert (Hc2 : k_cmd (k s2') = k_cmd (k (st w))) by (subst s2'; destruct (_ && _); reflexivity).
+    assert (Hu2 : u s2' = u (st w)) by (subst s2'; destruct (_ && _); reflexivity).
+    destruct (Hb (k_char (k s2')) s2' Hn2 Hk2 Hc2) as [B1 B2]. split.
+    + unfold Inv'. wcbn. auto.
+    + left. unfold M. wcbn. rewrite Ei, B2, Hu2. cbn [lexlt length inq].
+      right. split; [reflexivity|]. left. lia.
+Qed.
+
+Lemma s_write_ready : forall x ch, wr_sched x = [] -> s_write x ch = (mkSio (inq x) (rd_sched x) [], true).
+Proof. intros x ch H. unfold s_write. rewrite H. reflexivity. Qed.
+
+(* cat.c:2461 *)
+Lemma flush_step_C : forall w, Inv w -> k_state (k (st w)) = CS_FLUSH ->
+  StepC w (fst (process_io_write w)) (snd (process_io_write w)).
+Proof.
+  intros w HI Hst. pose proof HI as (HS & Hnh & R1 & R2 & HK).
+  unfold Fsm.process_io_write.
+  assert (F : flush_ok (k_wbuf (k (st w))) (k_wstate (k (st w))) (k_position (k (st w))) (cbuf (st w))).
+  { destruct HS as (_ & HKS & _). unfold KS in HKS. rewrite Hst in HKS. apply HKS. }
+  destruct (wbuf_char_ok _ _ _ _ F) as (ch & Ec & _). rewrite Ec.
+  destruct (N.eqb_spec ch 0) as [Z|Z].
+  - wred. apply stepC_pure; [exact HI | reflexivity | apply io_same_refl; exact HI |].
+    apply (flush_done_PC D m); assumption.
+  - rewrite s_write_ready by exact R2. wred. wcbn.
+    apply stepC_pure; [exact HI | reflexivity | repeat split; assumption |].
+    apply (flush_adv_PC D (st w) ch); try assumption. apply HS.
+Qed.
+
+(* cat.c:2493 *)
+Lemma flush_step_U : forall w, Inv w -> u_state (u (st w)) = US_FLUSH ->
+  StepU w (fst (unsolicited_process_io_write w)) (snd (unsolicited_process_io_write w)).
+Proof.
+  intros w HI Hst. pose proof HI as (HS & Hnh & R1 & R2 & HK).
+  unfold Fsm.unsolicited_process_io_write.
+  assert (F : flush_ok (u_wbuf (u (st w))) (u_wstate (u (st w))) (u_position (u (st w))) (ubuf (st w))).
+  { destruct HS as (_ & _ & HUS). unfold US in HUS. rewrite Hst in HUS. apply HUS. }
+  destruct (wbuf_char_ok _ _ _ _ F) as (ch & Ec & _). rewrite Ec.
+  destruct (N.eqb_spec ch 0) as [Z|Z].
+  - wred. apply stepU_pure; [exact HI | reflexivity | apply io_same_refl; exact HI |].
+    apply (flush_done_PU D m); assumption.
+  - rewrite s_write_ready by exact R2. wred. wcbn.
+    apply stepU_pure; [exact HI | reflexivity | repeat split; assumption |].
+    apply (flush_adv_PU D (st w) ch); try assumption. apply HS.
+Qed.
+
+
+(* ------------------------------------------------------------------ *)
+(* one step of each machine                                             *)
+(* ------------------------------------------------------------------ *)
+
+Lemma KS_of : forall w, Inv w -> KS D (k (st w)) (cbuf (st w)).
+Proof. intros w ((_ & H & _) & _). exact H. Qed.
+Lemma US_of : forall w, Inv w -> US D (u (st w)) (ubuf (st w)).
+Proof. intros w ((_ & _ & H) & _). exact H. Qed.
+
+Ltac pure_c HI := wred; apply stepC_pure; [exact HI | reflexivity | apply io_same_refl; exact HI |].
+Ltac pure_u HI := wred; apply stepU_pure; [exact HI | reflexivity | apply io_same_refl; exact HI |].
+
+Theorem s_cmd_step : forall w, Inv w -> StepC w (fst (s_cmd w)) (snd (s_cmd w)).
+Proof.
+  intros w HI. pose proof HI as (HS & Hnh & R1 & R2 & HK). pose proof (KS_of w HI) as HKS.
+  unfold Fsm.cmd_service.
+  destruct (k_state (k (st w))) eqn:Hst; unfold KS in HKS; rewrite Hst in HKS;
+    unfold Fsm.error_state, Fsm.process_idle_state, Fsm.parse_prefix, Fsm.parse_command,
+           Fsm.wait_read_acknowledge, Fsm.wait_test_acknowledge, Fsm.parse_command_args.
+  - apply reading_step; [exact HI | congruence|]. intros ch s N _ _. apply error_body_RB; exact N.
+  - apply reading_step; [exact HI | congruence|]. intros ch s N _ _. apply idle_body_RB; exact N.
+  - apply reading_step; [exact HI | congruence|]. intros ch s N _ _. apply prefix_body_RB; exact N.
+  - apply reading_step; [exact HI | congruence|]. intros ch s N _ _. apply parse_command_body_RB; exact N.
+  - pure_c HI. apply (update_command_PC D m WF); assumption.
+  - apply reading_step; [exact HI | congruence|]. intros ch s N _ _. apply wait_read_body_RB; exact N.
+  - pure_c HI. apply (search_command_PC D m WF); assumption.
+  - pure_c HI. apply (command_found_PC D m); assumption.
+  - pure_c HI. apply ack_error_PC; [exact Hnh|]. unfold Lemmas_C15ba.cC. rewrite Hst. cbn. lia.
+  - apply reading_step; [exact HI | congruence|]. intros ch s N _ _. apply parse_command_args_body_RB; exact N.
+  - apply parse_write_args_step; assumption.
+  - apply (format_read_args_step ATCMD); [exact HI | exact Hst].
+  - apply reading_step; [exact HI | congruence|]. intros ch s N _ Ec.
+    apply (wait_test_body_RB D); [exact N | rewrite Ec; exact HKS].
+  - pure_c HI. apply (format_test_args_PG D m ATCMD); [exact HS | exact Hnh | exact Hst].
+  - apply write_loop_step; assumption.
+  - apply (rt_loop_step true ATCMD); [exact HI | left; exact Hst].
+  - apply (rt_loop_step false ATCMD); [exact HI | right; exact Hst].
+  - apply run_loop_step; assumption.
+  - destruct Hnh as [_ B]. congruence.
+  - destruct (ustate_eq_dec (u_state (u (st w))) US_FLUSH) as [E|E].
+    + wred. unfold process_io_write_wait. rewrite E. cbn [ustate_beq negb]. split.
+      * unfold Inv'. wcbn. auto.
+      * right. split; [reflexivity|]. split; [reflexivity|]. split; [congruence|]. right. auto.
+    + pure_c HI. apply wait_PC; assumption.
+  - apply flush_step_C; assumption.
+  - pure_c HI. apply reset_PC; assumption.
+  - pure_c HI. apply ack_ok_PC; [exact Hnh|]. unfold Lemmas_C15ba.cC. rewrite Hst. cbn. lia.
+  - pure_c HI. apply (TC_PC D 13); [apply (spfra_TG D ATCMD); [exact Hnh | exact HKS]|].
+    unfold Lemmas_C15ba.cC. rewrite Hst. cbn. lia.
+  - pure_c HI. apply (TC_PC D 13); [apply (spfta_TG D ATCMD); [exact Hnh | exact HKS]|].
+    unfold Lemmas_C15ba.cC. rewrite Hst. cbn. lia.
+  - pure_c HI. apply (print_cmd_list_PC D m); assumption.
+Qed.
+
+Theorem s_uns_step : forall w, Inv w -> StepU w (fst (s_uns w)) (snd (s_uns w)).
+Proof.
+  intros w HI. pose proof HI as (HS & Hnh & R1 & R2 & HK). pose proof (US_of w HI) as HUS.
+  unfold Fsm.unsolicited_events_service.
+  destruct (u_state (u (st w))) eqn:Hst; unfold US in HUS; rewrite Hst in HUS.
+  - destruct (ring_empty (st w)) eqn:Er; cbn [negb].
+    + cbn [fst snd]. split; [exact (proj2 HI)|]. right. split; [reflexivity|]. split; [reflexivity|]. left. auto.
+    + wred. apply stepU_pure; [exact HI | destruct (ring_items D (st w)); reflexivity | |].
+      * destruct (ring_items D (st w)); apply io_same_eq; try exact HI; reflexivity.
+      * replace (st match ring_items D (st w) with [] => w | it :: _ => logw (EPop (fst it) (snd it)) w end)
+          with (st w) by (destruct (ring_items D (st w)); reflexivity).
+        apply (check_unsolicited_buffers_PU D m); assumption.
+  - apply (format_read_args_step UNSOL); [exact HI | exact Hst].
+  - pure_u HI. apply (format_test_args_PG D m UNSOL); [exact HS | exact Hnh | exact Hst].
+  - apply (rt_loop_step true UNSOL); [exact HI | left; exact Hst].
+  - apply (rt_loop_step false UNSOL); [exact HI | right; exact Hst].
+  - destruct (cstate_eq_dec (k_state (k (st w))) CS_FLUSH) as [E|E].
+    + wred. unfold unsolicited_process_io_write_wait. rewrite E. cbn [cstate_beq negb]. split.
+      * unfold Inv'. wcbn. auto.
+      * right. split; [reflexivity|]. split; [reflexivity|]. right. exact E.
+    + pure_u HI. apply wait_PU; assumption.
+  - apply flush_step_U; assumption.
+  - pure_u HI. apply ureset_PU; [exact Hnh|]. unfold Lemmas_C15ba.cU. rewrite Hst. cbn. lia.
+  - pure_u HI. apply ureset_PU; [exact Hnh|]. unfold Lemmas_C15ba.cU. rewrite Hst. cbn. lia.
+  - pure_u HI. apply (TU_PU D 7); [apply (spfra_TG D UNSOL); [exact Hnh | exact HUS]|].
+    unfold Lemmas_C15ba.cU. rewrite Hst. cbn. lia.
+  - pure_u HI. apply (TU_PU D 7); [apply (spfta_TG D UNSOL); [exact Hnh | exact HUS]|].
+    unfold Lemmas_C15ba.cU. rewrite Hst. cbn. lia.
+Qed.
+
+
+(* ------------------------------------------------------------------ *)
+(* one cat_service call                                                 *)
+(* ------------------------------------------------------------------ *)
+
+Theorem body_step : forall w, Inv w ->
+  Inv (fst (s_body w)) /\ (lexlt (M (fst (s_body w))) (M w) \/ snd (s_body w) = ST_OK).
+Proof.
+  intros w HI. pose proof HI as (HS & Hnh & R1 & R2 & HK).
+  pose proof (s_uns_step w HI) as [HI1' HU]. pose proof (s_uns_safe w HK HS) as HS1.
+  unfold Fsm.service_body. destruct (s_uns w) as [w1 us]. cbn [fst snd] in *.
+  assert (HI1 : Inv w1) by (split; assumption).
+  pose proof (s_cmd_step w1 HI1) as [HI2' HC]. pose proof (s_cmd_safe w1 (proj2 (proj2 (proj2 HI1'))) HS1) as HS2.
+  destruct (s_cmd w1) as [w2 rc]. cbn [fst snd] in *.
+  assert (HI2 : Inv w2) by (split; assumption).
+  assert (X : lexlt (M w2) (M w) \/
+              (us = ST_OK /\ u_state (u (st w2)) = US_IDLE /\ rc = ST_OK)).
+  { destruct HU as [HU | (EM1 & ES1 & HU)]; destruct HC as [HC | (EM2 & ES2 & Hnf & HC)].
+    - left. eapply lexlt_trans; eassumption.
+    - left. rewrite EM2. exact HU.
+    - left. rewrite <- EM1. exact HC.
+    - rewrite ES1 in *. destruct HU as [[U1 U2] | U]; [|congruence].
+      destruct HC as [C | [_ C]]; [|congruence].
+      right. rewrite ES2. auto. }
+  destruct X as [X | (X1 & X2 & X3)].
+  - destruct (_ || _); cbn [fst snd]; (split; [exact HI2 | left; exact X]).
+  - subst us rc. rewrite X2. cbn. split; [exact HI2 | right; reflexivity].
+Qed.
+
+Local Notation s_do := (Fsm.do_op D sio smu shs s_read s_write s_lock s_unlock s_call).
+
+Lemma Inv_logw : forall e w, Inv w -> Inv (logw e w).
+Proof. intros e w H. exact H. Qed.
+
+Theorem reaches_ok : forall w, d_mutex D = false -> Inv w ->
+  exists n, snd (s_do (nsvc D n w) OService) = ST_OK.
+Proof.
+  intros w Hmx. pose proof (lexR_wf_len 9 (M w) (M_len w)) as A.
+  remember (M w) as l eqn:El. revert w El. induction A as [l _ IH]. intros w El HI.
+  destruct (body_step w HI) as [HI2 [L | E]].
+  - destruct (IH (M (svc D w))) with (w := svc D w) as [n Hn].
+    + subst l. unfold svc, Fsm.step. cbn [Fsm.do_op]. unfold Fsm.api_service, Fsm.bracket. rewrite Hmx.
+      destruct (s_body w) as [w2 r]. cbn [fst snd] in *. split; [rewrite !M_len; reflexivity | exact L].
+    + reflexivity.
+    + unfold svc, Fsm.step. cbn [Fsm.do_op]. unfold Fsm.api_service, Fsm.bracket. rewrite Hmx.
+      destruct (s_body w) as [w2 r]. cbn [fst snd] in *. exact HI2.
+    + exists (S n). exact Hn.
+  - exists 0. cbn [nsvc iter Fsm.do_op]. unfold Fsm.api_service, Fsm.bracket. rewrite Hmx. exact E.
+Qed.
+
 End Scripted.
+
+(* ================================================================== *)
+(* the delivered statements                                            *)
+(* ================================================================== *)
+
+(* from any state that satisfies the safety invariant, is not held and has no release pending *)
+Theorem C15_reaches_quiescence_unheld : forall D m (w : sworld),
+  d_mutex D = false ->
+  wf_desc D m -> Safe D m (st _ _ _ w) ->
+  k_hold (k (st _ _ _ w)) = false -> k_state (k (st _ _ _ w)) <> CS_HOLD ->
+  rd_sched (io _ _ _ w) = [] -> wr_sched (io _ _ _ w) = [] ->
+  script_ok no_hold_res (hs _ _ _ w) = true ->
+  script_ok (res_calls_ok D) (hs _ _ _ w) = true ->
+  exists n, snd (do_op D sio smu shs s_read s_write s_lock s_unlock s_call (nsvc D n w) OService) = ST_OK.
+Proof.
+  intros D m w Hmx WF HS Hh Hk R1 R2 S1 S2.
+  apply (reaches_ok D m WF w Hmx). split; [exact HS|]. split; [split; assumption|].
+  split; [exact R1|]. split; [exact R2|]. split; assumption.
+Qed.
+
+Theorem C15_reaches_quiescence_proof : forall D m (w : sworld),
+  d_mutex D = false ->
+  wf_desc D m -> Safe D m (st _ _ _ w) ->
+  J (ctl_of (st _ _ _ w)) ->
+  rd_sched (io _ _ _ w) = [] -> wr_sched (io _ _ _ w) = [] ->
+  script_ok no_hold_res (hs _ _ _ w) = true ->
+  k_state (k (st _ _ _ w)) <> CS_HOLD ->
+  script_ok (res_calls_ok D) (hs _ _ _ w) = true ->
+  exists n, snd (do_op D sio smu shs s_read s_write s_lock s_unlock s_call (nsvc D n w) OService) = ST_OK.
+Proof.
+  intros D m w Hmx WF HS HJ R1 R2 S1 Hk S2.
+  apply (C15_reaches_quiescence_unheld D m w); try assumption.
+  destruct HJ as [[H1 _] _]. cbn in H1.
+  destruct (k_hold (k (st _ _ _ w))); [exfalso; apply Hk, H1; reflexivity | reflexivity].
+Qed.
+
+Print Assumptions C15_reaches_quiescence_proof.
